@@ -553,6 +553,29 @@ fn soup_sweep(ctx: &Ctx, name: &str, space: Space, depth: Depth) {
     });
 }
 
+/// Documents whose sizes sit just below, at and just above the implementation's thresholds.
+fn scaled_sweep(ctx: &Ctx) {
+    let docs: Vec<(String, Vec<u8>)> = scaled_docs(ctx.quick()).into_iter().filter(|(_, d)| !contains_ci(d, b"<svg") && !contains_ci(d, b"<math")).collect();
+    par_for(docs.len(), 1, |i| {
+        if ctx.over_time() {
+            return;
+        }
+        let (label, raw) = &docs[i];
+        let depth = if raw.len() <= if ctx.quick() { 300 } else { 5000 } { Depth::L1 } else { Depth::L0 };
+        if let Some(msg) = check_input(raw, depth, Some(ctx)) {
+            let msg = check_input(raw, Depth::L1, None).unwrap_or(msg);
+            report(ctx, raw, format!("{label}: {msg}"), None);
+        }
+        ctx.states.insert(digest(raw));
+        if i % 97 == 5 {
+            ctx.sample(json!({"space": "scaled documents", "document": label}));
+        }
+    });
+    if !ctx.capped.load(std::sync::atomic::Ordering::Relaxed) {
+        ctx.level_done(&format!("{} scaled documents (sizes around 12, 32, 64, 256, 1024, 2048) vs the WHATWG reference, every single cut for documents up to {} bytes", docs.len(), if ctx.quick() { 300 } else { 5000 }));
+    }
+}
+
 fn contains_ci(hay: &[u8], needle: &[u8]) -> bool {
     hay.windows(needle.len()).any(|w| w.eq_ignore_ascii_case(needle))
 }
@@ -711,6 +734,7 @@ fn g_sweep(ctx: &Ctx, name: &str, max_nodes: usize, depth: Depth) {
 
 pub fn run_check(ctx: &Ctx) -> i32 {
     let k = F.len();
+    scaled_sweep(ctx);
     if ctx.quick() {
         soup_sweep(ctx, "F<=3 x 7 capture sets x strict{t,f} x L0,L1 + public handlers", Space::Frags { k, max: 3 }, Depth::L1);
         soup_sweep(ctx, "Fcore<=4 x 7 capture sets x strict{t,f} x L0 + public handlers", Space::Frags { k: F_CORE, max: 4 }, Depth::L0);
